@@ -22,6 +22,11 @@ type Outcome struct {
 	Index       uint64         `json:"index"`
 	Violations  []Violation    `json:"violations,omitempty"`
 	Harness     string         `json:"harness,omitempty"` // harness doubt: exit 2, never a VIOLATION
+	// TimingDependent: the run involved a decision the tape does not own (the
+	// code under test blocked in a real primitive and the scheduler had to
+	// take the turn over after a timeout). Such runs are judged but excluded
+	// from the byte-for-byte determinism self-test.
+	TimingDependent bool `json:"timing_dependent,omitempty"`
 	Fingerprint uint64         `json:"fingerprint"`
 	NonTrivial  bool           `json:"nontrivial"`
 	Faults      map[string]int `json:"faults,omitempty"`
